@@ -49,6 +49,20 @@ PROPS = {
              "representations of the four identifier types: text (lower/upper case, 0x), binary, Scan/Value, and malformed inputs (wrong length, odd digits, bad characters, doubled prefix, non-[]byte Scan source)",
              trusted=["encoding/hex modelled (LW.Basic hexDecodeChars), database/sql/driver.Value carried as []byte"],
              exhaustive_parts=["thorough tier: all 2^24 NetIDs", "all 256 leading DevAddr bytes"]),
+    "C12": P("finite and fully enumerated in both tiers: 56 configurations (14 names x repeater x dwell-time) x uplink DR -2..16 x RX1 offset -2..9, every uplink channel index and frequency through both RX1 routes, "
+             "plus DevAddr x beacon-time samples for the ping-slot (boundary DevAddrs, beacon times at and around multiples of 128 s) and custom channels; non-trivial = the accessor returned a value",
+             trusted=["the hook band.VerifSnapshotOf (read-only copy of the unexported tables)", "LW/Spec/Regional.lean: RX1 / ping-slot rules written from the Regional Parameters as remembered (no documents in the sandbox)"],
+             exhaustive_parts=["all 56 configs x DR -2..16 x offset -2..9", "every uplink channel of every config, both RX1 routes"]),
+    "C13": P("finite and fully enumerated: 56 configurations x 7 protocol versions (6 known + unknown) x 8 revisions (7 known + unknown) x DR -1..15 through GetMaxPayloadSizeForDataRateIndex, "
+             "every data-rate looked up by index and by its parameters in both directions, TX power indices -1..16, defaults, CFList per version",
+             trusted=["the hook band.VerifSnapshotOf", "LW/Spec/Regional.lean defaults: cells tagged pinned only freeze the reviewed value (US915 TX-power count, CN470 DR6)"],
+             exhaustive_parts=["56 configs x 7 versions x 8 revisions x DR -1..15", "all data-rates of all configs, both directions"]),
+    "C14": P("random histories (<= 12 ops) of AddChannel / Disable / Enable on all 56 configurations x device channel sets (random subset, equal to the network set, one sub-band, all, none, few flips; shuffled order); "
+             "sub-band patterns for US915 / AU915 / CN470; all 2^k device subsets of <= 16-channel plans (sampled in quick, exhaustive in thorough); each op plans AND applies on the real band",
+             trusted=["the hook (state observation)", "sort.Ints modelled as insertion sort"]),
+    "C15": P("random histories up to length 30 over {AddChannel(f,minDR,maxDR), Disable(i), Enable(i)} with valid and wild arguments (negative / huge indices, non-100 Hz frequencies, inverted DR ranges) on all 56 configurations; "
+             "after each history: full state observation, channel / frequency / frequency+DR lookups, CFList per protocol version, TX power, plan+apply; ISM2400 histories add spec-valid 2.4 GHz channels",
+             trusted=["the hook (state observation)"]),
     "C08": P("byte strings of every length 0..256 for each of the 8 MTypes (uniform), uniform strings at the lengths the decoders single out, structure-aware mutations (bit flip, truncate, extend, splice, overwrite, delete) of valid frames of all kinds, "
              "and the full FOptsLen x FPort x payload-length grid; each accepted string is re-encoded by the implementation; non-trivial = accepted",
              exhaustive_parts=["all lengths 0..256 x 8 MTypes (one uniform sample each)", "FOptsLen 0..15 x {no port, port 0, port 1, port 255} x payload 0..2 x 4 data MTypes"]),
@@ -87,6 +101,27 @@ MANIFEST_TEXT = {
              "Go results are also compared with an arithmetic form of the addressing rules.",
         note="Trusted: Lean kernel; the rule tables in LW/Spec/Addr.lean; hex codec model. The bit-level and arithmetic spec forms are both hand-written (their equivalence is exercised at run time, not proved).",
         technique="Lean 4 proof (bit-level characterisation via getLsbD extensionality, no bv_decide) + differential correspondence"),
+    "C12": dict(
+        text="Per-run kernel evaluation over the band data REGENERATED from /repo of the enumerators C12_rx1_channel, C12_rx1_datarate (defined downlink DR, equals region formula, nothing rejected that the region defines, no panic), "
+             "C12_rx1_monotone, C12_pingslot_data for all 56 configurations; unbounded theorems C12_total (no panic for ANY integers, any configuration) and C12_pingslot_hopping (all DevAddr, all t >= 0). "
+             "Every Go accessor result is compared with the model and judged against the regional rule.",
+        note="Trusted: Lean kernel; the translator (hook + dump); LW/Spec/Regional.lean written from memory of RP002. Five genuine defects found and repaired (negative offset panic, ISM2400 / IN865 / KR920 cells). One spec cell of mine (IN865 DR7 row) was wrong and corrected (DESIGN: false alarms).",
+        technique="Lean 4 proof by kernel evaluation over regenerated tables + unbounded lemmas + differential correspondence"),
+    "C13": dict(
+        text="Per-run kernel evaluation over the regenerated tables: C13_closure, C13_lookup (+ unambiguous parameters, which makes Go's map iteration order irrelevant), C13_latest, C13_sizes (M = N + 8, N <= 242), C13_na_cells, "
+             "C13_repeater, C13_sf_monotone, C13_defaults (frequencies, RX2, -2 dB steps, LoRa DR definitions); C13_unknown_resolves for any table.",
+        note="Trusted: as C12. Regional default cells tagged pinned are not independent. One genuine defect found and repaired (ISM2400 DR2 M=248).",
+        technique="Lean 4 proof by kernel evaluation over regenerated tables + differential correspondence"),
+    "C14": dict(
+        text="The planner and the apply function (generic and US915/AU915 variants) are modelled statement by statement (LW/Model/Band.lean) and agree with the Go code on every generated history x device set; "
+             "the spec verdict checks on every Go result: applied set = network set restricted to what the device can know, every payload encodable, at most blocks+1 payloads, nothing when the device matches.",
+        note="Trusted: hook, model/driver comparison. The unbounded refinement theorem (C14_generic) is work in progress; until it is committed this check's proof obligations are the C15 state-machine lemmas it imports.",
+        technique="Lean 4 model + spec oracle on every planned/applied set (refinement proof in progress)"),
+    "C15": dict(
+        text="Lean theorems about the channel-plan state machine for all states / all integer arguments (see LW/Props/C15.lean) and differential runs of random histories with full observation; spec verdicts on the Go observations: "
+             "partitions, unaltered standard channels, lookups return matching channels, CFList content and MAC-layer encodability.",
+        note="Trusted: hook, model. Known finding (recorded, not repaired): ISM2400 frequencies are not encodable in CFList / 24-bit frequency MAC commands. Two genuine defects repaired (negative index panics).",
+        technique="Lean 4 proof (invariants over all op histories) + differential correspondence"),
     "C08": dict(
         text="Lean theorems C08_canonical (for ALL byte strings of all lengths: accepted with RFU bits zero => re-encodes to exactly the input) and C08_stable. Tied to the Go decoder/encoder by decode+re-encode runs on uniform and mutated inputs.",
         note="Trusted: Lean kernel; the model of the frame codec. One genuine defect found and repaired (FOpts + FPort 0 + empty FRMPayload accepted but not encodable).",
